@@ -230,16 +230,19 @@ theorem c07_old_nil_destination : (processOld {} (.proto .none .member true true
 theorem c07_old_nil_sender : (processOld {} (.proto (.fresh .K) .none true true)).1 = .panic := by
   simp [processOld, treeOf, creates]
 theorem c07_old_empty_description :
-    (processOld {} (.respTree (some ⟨.R, .roR, .emptyChildren⟩) (some ⟨.roR, true⟩))).1 = .panic := by
+    (processOld {} (.respTree (some ⟨.R, .roR, .emptyChildren⟩) (some ⟨.roR, true, true⟩))).1 = .panic := by
+  simp [processOld]
+theorem c07_old_roster_member_without_key :
+    (processOld {} (.respTree (some ⟨.R, .roR, .good⟩) (some ⟨.roR, true, false⟩))).1 = .panic := by
   simp [processOld]
 theorem c07_old_roster_request_over_empty_slot : (processOld {} (.reqRoster .roK)).1 = .panic := by
   simp [processOld]
-theorem c07_old_lock_left_held : (processOld {} (.sendRoster ⟨.roR, true⟩)).2.treeLock = 1 := by
+theorem c07_old_lock_left_held : (processOld {} (.sendRoster ⟨.roR, true, true⟩)).2.treeLock = 1 := by
   simp [processOld]
 
 /-! ### non-vacuity: the deprecated roster-then-tree path stores the requested tree -/
-example : (runEnvs {} [.treeMarshal ⟨.R, .roR, .good⟩, .sendRoster ⟨.roR, true⟩]).slot .R = .present ∧
-    (runEnvs {} [.treeMarshal ⟨.R, .roR, .good⟩, .sendRoster ⟨.roR, true⟩]).delivered = 1 := by
+example : (runEnvs {} [.treeMarshal ⟨.R, .roR, .good⟩, (.sendRoster ⟨.roR, true, true⟩)]).slot .R = .present ∧
+    (runEnvs {} [.treeMarshal ⟨.R, .roR, .good⟩, (.sendRoster ⟨.roR, true, true⟩)]).delivered = 1 := by
   simp [runEnvs, process, instanceRoster, makeTree, storeAndFlush, upd]
 
 /-! ### the code regions the model stands for
@@ -295,8 +298,9 @@ theorem c07_shape_TreeMarshal_MakeTree :
 
 theorem c07_shape_TreeMarshal_MakeTreeFromList :
     Shapes.tree_TreeMarshal_MakeTreeFromList =
-   ["ro.Search", "if:(idx<0)", "return:nil,xerrors.New(\"\")", "c.MakeTreeFromList",
-     "if:(err!=nil)", "return:nil,xerrors.Errorf(\"\",err)", "return:tn,nil"] := rfl
+   ["ro.Search", "if:(idx<0)", "return:nil,xerrors.New(\"\")", "if:(ent.Public==nil)",
+     "return:nil,xerrors.New(\"\")", "c.MakeTreeFromList", "if:(err!=nil)",
+     "return:nil,xerrors.Errorf(\"\",err)", "return:tn,nil"] := rfl
 
 theorem c07_shape_treeStorage_GetRoster :
     Shapes.treestorage_treeStorage_GetRoster =
